@@ -211,8 +211,10 @@ class AsyncFIXConnection:
                 self._message_last_time = 0.0
                 self._max_seq_num_resend = 0
                 socket_writer = self._socket_writer
-                # stop reading from the socket
+                # stop reading from the socket, unprocessed bytes belong to this
+                #   connection, not to the next one
                 self._socket_reader = None
+                self._msg_buffer = b""
 
                 if logout_message is not None:
                     msg = FIXMessage(FMsg.LOGOUT)
